@@ -74,7 +74,10 @@ pub fn inline_lattice<S: USet>(e: &mut Eng<S>) {
             }
             // removals whose result stays within budget: remove the largest (prefix: in budget by
             // width monotonicity), then check the documented condition for the others
-            if n > 1 && code % 7 == 0 {
+            // (every set of up to three members, every set whose first field is at its top — removing its
+            // minimum can push the rest OUT of the budget, the one case in which `remove` builds a heap set —,
+            // and a seventh of the others)
+            if n > 1 && (n <= 3 || f[0] > 1 || code % 7 == 0) {
                 for k in 0..n {
                     let rest: Vec<u64> = members.iter().cloned().filter(|&x| x != members[k]).collect();
                     let m = rest.len();
